@@ -1877,3 +1877,8 @@ for _pid in ("C08", "C07", "C10"):
 V("c08-reversible-one-direction-vectorised", "C08", "fire", UT, "    for (x, y) in zip(fros, tos):\n        cpdag[x, y], cpdag[y, x] = 1, 1\n", "    cpdag[fros, tos] = 1\n    cpdag[fros, tos] = 1\n", rule="LABELS.assembly", what="the same direction written twice")
 V("c08-select-where-known", "C08", "fire", UT, "        unknown_edges = (ordered * (labelled == UNK).astype(int)).astype(float)\n        unknown_edges[unknown_edges == 0] = -np.inf\n",
   "        unknown_edges = np.where(labelled != UNK, ordered, 0)\n", rule="STEP.select", what="selects among the already labelled edges")
+
+# ------------------------------------------------------------------------------- refactoring round 8: bookkeeping of pdag_to_dag moved out of the scan loop (two false alarms of INDEX.* on first contact)
+_SCAN_MOVED = '        found = False\n        i = 0\n        while not found and i < len(P):\n            # Check condition 1\n            sink = len(ch(i, P)) == 0\n            # Check condition 2\n            n_i = neighbors(i, P)\n            adj_i = adj(i, P)\n            adj_neighbors = np.all([adj_i - {y} <= adj(y, P) for y in n_i])\n            found = sink and adj_neighbors\n            if not found:\n                i += 1\n        if not found:\n            raise ValueError("PDAG %s does not admit consistent extension" % oP)\n        real_i = indexes[i]\n        real_neighbors = [indexes[j] for j in n_i]\n        for j in real_neighbors:\n            G[j, real_i] = 1\n        all_but_i = list(set(range(len(P))) - {i})\n        P = P[all_but_i, :][:, all_but_i]\n        indexes.remove(real_i)\n'
+for _pid in ("C08", "C09"):
+    V("%s-bookkeeping-after-scan" % _pid.lower(), _pid, "undecided", UT, _SCAN_OLD, _SCAN_MOVED, what="the accepted node is processed after the scan loop (code motion): another form")
